@@ -745,8 +745,10 @@ async fn host_actor(
     };
 
     tokio::join!(writer, reader);
-    // watch for the endpoint releasing the socket
-    let deadline = tokio::time::Instant::now() + settle;
+    // watch for the endpoint releasing the socket: the countdown starts when the client's side
+    // of the tunnel is over too (a slow client keeps the tunnel, and so the socket, alive long
+    // after this destination has written and read everything)
+    let mut deadline: Option<tokio::time::Instant> = None;
     loop {
         if conn.faults_fired() != 0 {
             obs.lock().unwrap().fault_fired = true;
@@ -755,8 +757,16 @@ async fn host_actor(
             obs.lock().unwrap().host_closed_by_endpoint = true;
             break;
         }
-        if tokio::time::Instant::now() >= deadline {
-            break;
+        if deadline.is_none() {
+            let o = obs.lock().unwrap();
+            if o.client_end != EndKind::Open || o.fault_fired || o.empty_data_storm > 0 {
+                deadline = Some(tokio::time::Instant::now() + settle);
+            }
+        }
+        if let Some(d) = deadline {
+            if tokio::time::Instant::now() >= d {
+                break;
+            }
         }
         sleep_us(50_000).await;
     }
